@@ -35,6 +35,9 @@ type height struct {
 	p    *execdrv.Proposal
 	pre  string
 	post string
+	// prevCert: the version of the height h-1 commit certificate the proposer stored = the one the
+	// block's header embeds as LastQuorumCertificate
+	prevCert string
 }
 
 // Run is the driver entry point.
@@ -44,6 +47,7 @@ func Run(o *drv.Out) {
 	execdrv.Guard(o, func() { corpusFullBlock(o) })
 	execdrv.Guard(o, func() { corpusNonCanonical(o) })
 	execdrv.Guard(o, func() { corpusCheckpointHeight(o) })
+	execdrv.Guard(o, func() { corpusLastCertVersion(o) })
 	nCases, nHeights := 5, 5
 	if o.Tier == "thorough" || o.Search {
 		nCases, nHeights = 14, 8
@@ -64,6 +68,12 @@ func proposeAndCommit(c *execdrv.Chain, A *node.Node, txs []node.MixTx) *height 
 		return nil
 	}
 	remainder := A.MempoolCount() - p.NTx
+	// proposer, replicas and archives each hold their own valid version (+2/3 signer set) of every
+	// commit certificate
+	if p.VS.NumValidators != 0 {
+		p = c.Version(p, c.RandomQuorum(p.VS, 2))
+	}
+	ht.prevCert = c.LastCert[A]
 	c.Hold = true
 	if !c.Validate(A, p) {
 		c.Release()
@@ -130,7 +140,11 @@ func replicate(c *execdrv.Chain, B *node.Node, ht *height, remainder bool) bool 
 			map[string]any{"case": o.CurCase(), "height": ht.h, "block": hex.EncodeToString(ht.p.Block)})
 		return false
 	}
-	got := c.Commit(B, ht.p, false)
+	pB := ht.p
+	if pB.VS.NumValidators != 0 {
+		pB = c.Version(pB, c.RandomQuorum(pB.VS, 2))
+	}
+	got := c.Commit(B, pB, false)
 	want := fmt.Sprintf("ok state=%s obs=%s", ht.post, ht.p.Obs)
 	if strings.HasPrefix(got, "err:") {
 		rem := 0
@@ -198,12 +212,24 @@ func serveAndSync(c *execdrv.Chain, A, C *node.Node, ht *height) bool {
 		}
 	}
 	sp.QC = served
+	if served.Signature != nil {
+		sp.CertVersion = hex.EncodeToString(served.Signature.Bitmap)
+	}
+	storedPrev := c.LastCert[C]
 	C.PurgeProcessCaches()
 	got := c.Commit(C, &sp, true)
 	want := fmt.Sprintf("ok state=%s obs=%s", ht.post, ht.p.Obs)
+	if storedPrev != ht.prevCert && ht.h > 1 {
+		o.Count("sync-node-held-another-version-of-the-last-certificate")
+	}
 	switch {
 	case got == want && same:
 		return true
+	case same && storedPrev != ht.prevCert && ht.h > 1:
+		o.Fail("C11:served-block-rejected:last-certificate-version",
+			fmt.Sprintf("height %d: the syncing node took height %d from another peer and stored version %s of its commit certificate; the served block's header embeds version %s (same payload, another +2/3 signer set); the served block (bytes equal to the certified block) is handled as %q, expected %q", ht.h, ht.h-1, storedPrev, ht.prevCert, got, want),
+			map[string]any{"case": o.CurCase(), "height": ht.h, "served_by": c.Names[A], "block": hex.EncodeToString(ht.p.Block), "stored_version": storedPrev, "embedded_version": ht.prevCert, "fresh_node_result": got})
+		return false
 	case !same || strings.HasPrefix(got, "err:"):
 		if witness == nil {
 			witness = map[string]any{"case": o.CurCase(), "height": ht.h}
@@ -263,7 +289,13 @@ func runCase(o *drv.Out, ci, nHeights int) {
 		lastIncluded = blk.Transactions
 		hs = append(hs, ht)
 		if !atEnd && cAlive {
-			cAlive = serveAndSync(c, A, C, ht)
+			// the syncing node takes odd heights from B's archive and even ones from A's: it stores B's
+			// version of a certificate while the next block's header embeds A's
+			from := A
+			if hi%2 == 1 {
+				from = B
+			}
+			cAlive = serveAndSync(c, from, C, ht)
 		}
 	}
 	if atEnd {
@@ -414,6 +446,41 @@ func corpusCheckpointHeight(o *drv.Out) {
 	}
 	o.Nontrivial(o.CurCase())
 	o.Sample(fmt.Sprintf("checkpoint-height: heights 1..%d proposed, validated, committed and replayed on a fresh node; the checkpoint of height 100 is the block's final hash", last))
+}
+
+// corpusLastCertVersion: proposer A, replica B and the archives hold DIFFERENT valid versions (+2/3
+// signer sets) of every commit certificate; the fresh node C syncs odd heights from B's archive and
+// even heights from A's, right after they are committed, so at every height it has stored another
+// version of the previous certificate than the served block's header embeds. Every served block must
+// still re-validate on the sync path to the certified hash and state.
+func corpusLastCertVersion(o *drv.Out) {
+	o.Case("corpus-last-certificate-version")
+	rng := rand.New(rand.NewSource(55))
+	net := node.NewNetwork(16, 4, nil, 8)
+	defer net.Close()
+	c := execdrv.NewChain(o, net, rng, []int{16, 3})
+	A, B, C := c.NewNode("A", 0), c.NewNode("B", 1), c.NewNode("C", -1)
+	for hi := 0; hi < 6; hi++ {
+		h := A.Height()
+		txs := []node.MixTx{{Kind: "send", Bytes: net.SendTx(net.AcctKeys[hi%6], net.FreshAddr(hi), 1000, 10000, h, ""), Expect: true}}
+		ht := proposeAndCommit(c, A, txs)
+		if ht == nil || !replicate(c, B, ht, false) {
+			return
+		}
+		from := A
+		if hi%2 == 0 {
+			from = B
+		}
+		if !serveAndSync(c, from, C, ht) {
+			return
+		}
+	}
+	if !execdrv.SameDump(A.StateDump(), C.StateDump()) {
+		o.Fail("C11:replay-diverges", "full state scans of A and the synced node differ", map[string]any{"case": o.CurCase()})
+		return
+	}
+	o.Nontrivial(o.CurCase())
+	o.Sample("corpus-last-certificate-version: 6 heights; proposer, replica and archives hold different +2/3 versions of each commit certificate; the fresh node syncs alternately from both archives")
 }
 
 // corpusNonCanonical: suspected defect F2 (DESIGN §8), C11 view. A valid send is re-encoded without
